@@ -44,7 +44,9 @@ def run(ctx: Ctx):
               ' waits or notifies under a second lock in an inverted order'
               ' (R-C04-4); a producer submitted to the pool with its future'
               ' dropped records every failure of its input itself, incl. a'
-              ' failing __iter__ (R-C05-10)', _fail_shared, qmodel(ctx), min_instances=10)
+              ' failing __iter__ (R-C05-10); the test "buffer full / empty" and the wait'
+              ' that follows it are one atomic step under the condition (R-C04-14)',
+              _fail_shared, qmodel(ctx), min_instances=14)
   ctx.include('R-C13-5', '"collects every generator\'s return value": the'
               ' return values are recorded before end-of-stream can be'
               ' observed (R-C04-6)', c04.r6, qmodel(ctx), min_instances=2)
@@ -149,6 +151,7 @@ def _fail_shared(sub, m):
   sub.guard(c05.r1, m)
   sub.guard(c04.r4, m)
   sub.guard(c05.r10, m)
+  sub.guard(c04.r14, m)
 
 
 def r1(ctx: Ctx):
